@@ -11,7 +11,11 @@
  *   p<0|1>   1 = regular certificate, 0 = a DER blob that is no certificate
  *   v<n>     version field (-1 absent, 0 v1, 1 v2, 2 v3)
  *   l<n>     serial number length in bytes (>=1)
- *   m<0|1>   1 = inner signature algorithm equals the outer one
+ *   m<n> o<n> inner (TBSCertificate.signature) / outer (signatureAlgorithm) algorithm identifier:
+ *            0 sm2sign-with-sm3, 1 same with NULL parameters, 2 ecdsa-with-sha256, 3 sha256WithRSAEncryption+NULL,
+ *            4 rsasign-with-sm3+NULL, 5 an OID outside the library's table, 6 ecdsa-with-sha256+NULL, 7 sm2sign-with-sm3 with an INTEGER parameter
+ *            the signature bits are always an SM2 signature by key g (or corrupted, g0)
+ *   h<0|1>   1 = compose the certificate by hand (TBS fields from the library's field writers) even when m0,o0
  *   s<n> i<n> subject / issuer name id (0 = empty name)
  *   k<n>     subject public key id (1..NKEYS)
  *   g<n>     id of the key that signs (0 = signature bytes corrupted after signing)
@@ -166,7 +170,7 @@ static int add_one_ext(uint8_t *exts, size_t *extslen, size_t max, char *spec) {
 
 static blob_t make_cert(const char *tok) {
 	blob_t r = { NULL, 0 };
-	long p = fld(tok, 'p', 1), v = fld(tok, 'v', 2), l = fld(tok, 'l', 8), m = fld(tok, 'm', 1);
+	long p = fld(tok, 'p', 1), v = fld(tok, 'v', 2), l = fld(tok, 'l', 8), m = fld(tok, 'm', 0), o = fld(tok, 'o', 0);
 	long s = fld(tok, 's', 1), i = fld(tok, 'i', 1), k = fld(tok, 'k', 1), g = fld(tok, 'g', 1);
 	long long nb = 0, na = 0;
 	const char *xs = fldstr(tok, 'x');
@@ -195,11 +199,50 @@ static blob_t make_cert(const char *tok) {
 		(void)save;
 	}
 	memset(serial, 0x11, sizeof serial); serial[0] = 0x01;
-	if (x509_cert_sign_to_der((int)v, serial, (size_t)l, m ? OID_sm2sign_with_sm3 : OID_ecdsa_with_sha256,
+	if (m || o || fld(tok, 'h', 0)) {
+		/* own composition: x509_cert_sign_to_der hard-wires the outer identifier */
+		static const uint8_t A0[] = { 0x30,0x0a,0x06,0x08,0x2a,0x81,0x1c,0xcf,0x55,0x01,0x83,0x75 };
+		static const uint8_t A1[] = { 0x30,0x0c,0x06,0x08,0x2a,0x81,0x1c,0xcf,0x55,0x01,0x83,0x75,0x05,0x00 };
+		static const uint8_t A2[] = { 0x30,0x0a,0x06,0x08,0x2a,0x86,0x48,0xce,0x3d,0x04,0x03,0x02 };
+		static const uint8_t A3[] = { 0x30,0x0d,0x06,0x09,0x2a,0x86,0x48,0x86,0xf7,0x0d,0x01,0x01,0x0b,0x05,0x00 };
+		static const uint8_t A4[] = { 0x30,0x0c,0x06,0x08,0x2a,0x81,0x1c,0xcf,0x55,0x01,0x83,0x78,0x05,0x00 };
+		static const uint8_t A5[] = { 0x30,0x05,0x06,0x03,0x2a,0x03,0x04 };
+		static const uint8_t A6[] = { 0x30,0x0c,0x06,0x08,0x2a,0x86,0x48,0xce,0x3d,0x04,0x03,0x02,0x05,0x00 };
+		static const uint8_t A7[] = { 0x30,0x0d,0x06,0x08,0x2a,0x81,0x1c,0xcf,0x55,0x01,0x83,0x75,0x02,0x01,0x05 };
+		static const struct { const uint8_t *p; size_t n; } algs[8] = { { A0, sizeof A0 }, { A1, sizeof A1 }, { A2, sizeof A2 }, { A3, sizeof A3 },
+			{ A4, sizeof A4 }, { A5, sizeof A5 }, { A6, sizeof A6 }, { A7, sizeof A7 } };
+		uint8_t *tbs, *tp; size_t clen = 0, tbslen = 0, hl = 0, total = 0; uint8_t sig[SM2_MAX_SIGNATURE_SIZE]; size_t siglen = 0; SM2_SIGN_CTX sctx;
+		if (m < 0 || m > 7 || o < 0 || o > 7) { fail_build = 1; return r; }
+		if (x509_explicit_version_to_der(0, (int)v, NULL, &clen) < 0 || asn1_integer_to_der(serial, (size_t)l, NULL, &clen) != 1
+			|| asn1_sequence_to_der(iss, isslen, NULL, &clen) != 1 || x509_validity_to_der((time_t)nb, (time_t)na, NULL, &clen) != 1
+			|| asn1_sequence_to_der(subj, subjlen, NULL, &clen) != 1 || x509_public_key_info_to_der(&keys[k], NULL, &clen) != 1
+			|| x509_explicit_exts_to_der(3, exts, extslen, NULL, &clen) < 0) { fail_build = 1; return r; }
+		clen += algs[m].n;
+		if (asn1_sequence_header_to_der(clen, NULL, &hl) != 1) { fail_build = 1; return r; }
+		tbs = malloc(hl + clen); tp = tbs;
+		if (asn1_sequence_header_to_der(clen, &tp, &tbslen) != 1 || x509_explicit_version_to_der(0, (int)v, &tp, &tbslen) < 0
+			|| asn1_integer_to_der(serial, (size_t)l, &tp, &tbslen) != 1) { free(tbs); fail_build = 1; return r; }
+		memcpy(tp, algs[m].p, algs[m].n); tp += algs[m].n; tbslen += algs[m].n;
+		if (asn1_sequence_to_der(iss, isslen, &tp, &tbslen) != 1 || x509_validity_to_der((time_t)nb, (time_t)na, &tp, &tbslen) != 1
+			|| asn1_sequence_to_der(subj, subjlen, &tp, &tbslen) != 1 || x509_public_key_info_to_der(&keys[k], &tp, &tbslen) != 1
+			|| x509_explicit_exts_to_der(3, exts, extslen, &tp, &tbslen) < 0 || tbslen != hl + clen) { free(tbs); fail_build = 1; return r; }
+		if (sm2_sign_init(&sctx, &keys[g ? g : 1], SM2_DEFAULT_ID, SM2_DEFAULT_ID_LENGTH) != 1 || sm2_sign_update(&sctx, tbs, tbslen) != 1
+			|| sm2_sign_finish(&sctx, sig, &siglen) != 1) { free(tbs); fail_build = 1; return r; }
+		if (g == 0) sig[siglen - 5] ^= 0x40;
+		clen = tbslen + algs[o].n; hl = 0;
+		if (asn1_bit_octets_to_der(sig, siglen, NULL, &clen) != 1 || asn1_sequence_header_to_der(clen, NULL, &hl) != 1) { free(tbs); fail_build = 1; return r; }
+		total = hl + clen; out = malloc(total); q = out; r.n = 0;
+		if (asn1_sequence_header_to_der(clen, &q, &r.n) != 1) { free(tbs); free(out); r.n = 0; fail_build = 1; return r; }
+		memcpy(q, tbs, tbslen); q += tbslen; r.n += tbslen; memcpy(q, algs[o].p, algs[o].n); q += algs[o].n; r.n += algs[o].n;
+		if (asn1_bit_octets_to_der(sig, siglen, &q, &r.n) != 1 || r.n != total) { free(tbs); free(out); r.n = 0; fail_build = 1; return r; }
+		free(tbs); r.p = out;
+		return r;
+	}
+	if (x509_cert_sign_to_der((int)v, serial, (size_t)l, OID_sm2sign_with_sm3,
 		iss, isslen, (time_t)nb, (time_t)na, subj, subjlen, &keys[k], NULL, 0, NULL, 0, exts, extslen,
 		&keys[g ? g : 1], SM2_DEFAULT_ID, SM2_DEFAULT_ID_LENGTH, NULL, &certlen) != 1) { fail_build = 1; return r; }
 	out = malloc(certlen); q = out; r.n = 0;
-	if (x509_cert_sign_to_der((int)v, serial, (size_t)l, m ? OID_sm2sign_with_sm3 : OID_ecdsa_with_sha256,
+	if (x509_cert_sign_to_der((int)v, serial, (size_t)l, OID_sm2sign_with_sm3,
 		iss, isslen, (time_t)nb, (time_t)na, subj, subjlen, &keys[k], NULL, 0, NULL, 0, exts, extslen,
 		&keys[g ? g : 1], SM2_DEFAULT_ID, SM2_DEFAULT_ID_LENGTH, &q, &r.n) != 1 || r.n != certlen) { free(out); r.n = 0; fail_build = 1; return r; }
 	if (g == 0) out[certlen - 5] ^= 0x40;  /* inside the signature's s value */
